@@ -16,7 +16,14 @@ import (
 type RandomOpts struct {
 	AllowProto2   bool
 	ReservedNames bool
+	Extensions    bool
+	Services      bool
+	// Tag, when set, selects the compilable flavour used as extra corpus for the
+	// codec engines: Go packages under internal/verifsim/rnd/<Tag>p<k>.
+	Tag string
 }
+
+const RndGoPrefix = "github.com/cosmos/cosmos-proto/internal/verifsim/rnd/"
 
 var nestedNamePool = []string{"Leaf", "Inner", "Node", "Item", "Leaf", "Data"}
 var reservedWords = []string{"type", "descriptor", "range", "get", "set", "has", "clear", "new", "interface", "mutable", "new_field", "which_oneof", "is_valid", "proto_methods", "get_unknown", "set_unknown", "reset", "string", "proto_message", "proto_reflect"}
@@ -97,6 +104,12 @@ func (g *randomGen) genFile(idx, pkg int) {
 		Syntax:  proto.String("proto3"),
 		Options: &descriptorpb.FileOptions{GoPackage: proto.String(fmt.Sprintf("example.com/rnd/pkg%d;pkg%d", pkg, pkg))},
 	}
+	if g.opts.Tag != "" {
+		pkgName = fmt.Sprintf("rnd.%s.pkg%d", g.opts.Tag, pkg)
+		fd.Name = proto.String(fmt.Sprintf("verifsim/rnd/%s/pkg%d/file%d.proto", g.opts.Tag, pkg, idx))
+		fd.Package = proto.String(pkgName)
+		fd.Options.GoPackage = proto.String(fmt.Sprintf("%s%sp%d;%sp%d", RndGoPrefix, g.opts.Tag, pkg, g.opts.Tag, pkg))
+	}
 	proto2 := g.opts.AllowProto2 && t.Chance("rs.proto2", 1, 12)
 	if proto2 {
 		fd.Syntax = proto.String("proto2")
@@ -132,7 +145,7 @@ func (g *randomGen) genFile(idx, pkg int) {
 		g.fillMsg(b, idx, 0, proto2)
 		fd.MessageType = append(fd.MessageType, b.m)
 	}
-	if !proto2 && t.Chance("rs.extensions", 1, 3) {
+	if !proto2 && g.opts.Extensions && t.Chance("rs.extensions", 1, 3) {
 		// custom options: extensions of descriptor.proto option messages
 		fd.Dependency = append(fd.Dependency, DescriptorFile)
 		n := 1 + t.Draw("rs.next", 6)
@@ -164,7 +177,7 @@ func (g *randomGen) genFile(idx, pkg int) {
 			fd.Extension = append(fd.Extension, ext)
 		}
 	}
-	if !proto2 && t.Chance("rs.service", 1, 4) && len(tops) > 0 {
+	if !proto2 && g.opts.Services && t.Chance("rs.service", 1, 4) && len(tops) > 0 {
 		svc := &descriptorpb.ServiceDescriptorProto{Name: proto.String(fmt.Sprintf("Svc%d", idx))}
 		svc.Method = append(svc.Method, &descriptorpb.MethodDescriptorProto{Name: proto.String("Call"), InputType: proto.String(tops[0].full), OutputType: proto.String(tops[len(tops)-1].full)})
 		fd.Service = append(fd.Service, svc)
